@@ -30,6 +30,10 @@ def configs(tier):
             dict(label='2inc P4', n_rows=2, sensors=[(P, 4, 2)]),
             dict(label='5inc P1 V1', n_rows=5, sensors=[(P, 1, 2), (V, 1, 2)]),
             dict(label='4inc P2 V1, time+time_step arbitrary', n_rows=4, sensors=[(P, 2, 2), (V, 1, 2)], havoc_add=True, sample_mod=0),
+            # deepest bounds that finish in minutes (measured: 75 k, 36 k, 28 k paths; 5, 1.5, 3.5 min)
+            dict(label='4inc P2 V2', n_rows=4, sensors=[(P, 2, 2), (V, 2, 2)], sample_mod=499),
+            dict(label='3inc P2 V1 B1', n_rows=3, sensors=[(P, 2, 2), (V, 1, 2), (BV, 1, 3)], sample_mod=499),
+            dict(label='6inc P1 V1', n_rows=6, sensors=[(P, 1, 2), (V, 1, 2)], sample_mod=499),
         ]
     return c
 
